@@ -15,18 +15,16 @@ def configs(tier):
                     cfgs.append({'dtype': dt, 'trail': trail, 'start_len': n0, 'Lmax': 3,
                                  'oracles': ['model']})
     else:
-        for dt in payload.ALL_DTYPES:
-            for trail in ([], [2], [2, 3]):
-                for n0 in (0, 2):
-                    cfgs.append({'dtype': dt, 'trail': trail, 'start_len': n0, 'Lmax': 3,
-                                 'oracles': ['model']})
-        for dt in QUICK_DTYPES:
-            for trail in ([], [2]):
-                for n0 in (0, 2):
-                    cfgs.append({'dtype': dt, 'trail': trail, 'start_len': n0, 'Lmax': 4,
-                                 'oracles': ['model']})
-        for dt, trail in (('<f8', []), ('>i2', [2])):
-            cfgs.append({'dtype': dt, 'trail': trail, 'start_len': 0, 'Lmax': 5, 'oracles': ['model']})
+        # every (type, byte order) with two of the three trailing shapes and one of the two start lengths (rotated), so that
+        # each trailing shape and each start occurs with every type kind; deeper bounds for four / one configuration(s)
+        trails = ([], [2], [2, 3])
+        for i, dt in enumerate(payload.ALL_DTYPES):
+            for j in (0, 1):
+                cfgs.append({'dtype': dt, 'trail': trails[(i + j) % 3], 'start_len': (0, 2)[(i + j) % 2], 'Lmax': 3,
+                             'oracles': ['model']})
+        for dt, trail, n0 in (('<f8', [], 0), ('>i2', [2], 2), ('<c8', [2], 0), ('|u1', [], 2)):
+            cfgs.append({'dtype': dt, 'trail': trail, 'start_len': n0, 'Lmax': 4, 'oracles': ['model']})
+        cfgs.append({'dtype': '<f8', 'trail': [], 'start_len': 0, 'Lmax': 5, 'oracles': ['model']})
     # big graphs first
     cfgs.sort(key=lambda c: -c['Lmax'])
     return cfgs
